@@ -53,7 +53,12 @@ Inductive answer :=
 | Ans (delay : N) (ok : bool)  (* a complete reply arrives [delay] after the request; ok: it is the expected
                                   message with a success status (for the first message: a successful
                                   ConnectionAttemptEvent); not ok: error status / ERROR_MESSAGE / another type *)
-| NoAns.                       (* no complete reply, ever (silence, or a reply that never completes) *)
+| NoAns                        (* no reply at all *)
+| Trickle (gap : N).           (* a reply that never completes: its header (announcing a large payload) comes at
+                                  once, then one byte every [gap]. Whether such a host can hold a probe depends
+                                  on what the read deadline bounds, see [idle_deadline]. (Bytes that follow an
+                                  incomplete message on the stream are its payload: scripts with a Trickle are
+                                  meant without unsolicited traffic.) *)
 
 Inductive dial_outcome := DialRefused | DialNever | DialAccept (d : N).
 
@@ -95,8 +100,15 @@ Inductive behaviour :=
    send_timeout  : the 20 s context of the request goroutine (sendTimeout)
    force_close   : after a Shutdown that FAILED (CLOSE_CONNECTION refused, answered with something
                    else, not answered before the context ended) the request goroutine closes the
-                   client itself (`_ = c.Close()`), which is what lets Connect return. *)
-Record timers := mk_timers { dial : N; read_deadline : option N; send_timeout : N; force_close : bool }.
+                   client itself (`_ = c.Close()`), which is what lets Connect return.
+   idle_deadline : WHAT the read deadline bounds. false (the code): the deadline is armed once, when the
+                   client starts waiting for a message, and the whole message — header and payload — must
+                   have arrived by then: a message gets one read-deadline period counted from the end of the
+                   previous message, however its bytes are spaced. true: the deadline is re-armed before
+                   every read, so it bounds the time the connection may stay idle, and a message whose
+                   bytes keep coming more often than that is waited for indefinitely. *)
+Record timers := mk_timers { dial : N; read_deadline : option N; send_timeout : N; force_close : bool;
+                             idle_deadline : bool }.
 
 Definition min_opt (a : option N) (b : N) : N := match a with Some x => N.min x b | None => b end.
 
@@ -114,7 +126,7 @@ Definition step_until (a : answer) (t : N) (lim : option N) : (N * bool) + optio
   match a with
   | Ans d ok => if opt_le (t + d) lim then inl (t + d, ok)
                 else inr (match lim with Some l => Some (N.max t l) | None => None end)
-  | NoAns => inr (match lim with Some l => Some (N.max t l) | None => None end)
+  | _ => inr (match lim with Some l => Some (N.max t l) | None => None end)
   end.
 
 Inductive conn_res :=
@@ -151,10 +163,10 @@ Definition connect_phase (r : option N) (fc : bool) (s : script) (t0 tc : N) : c
    Some (arrival, ok) iff a complete reply arrives before the context ends *)
 Definition ask (a : answer) (t tc : N) : option (N * bool) :=
   if tc <=? t then None else
-  match a with Ans d ok => if t + d <? tc then Some (t + d, ok) else None | NoAns => None end.
+  match a with Ans d ok => if t + d <? tc then Some (t + d, ok) else None | _ => None end.
 (* a reply that comes after the context ended still arrives (and is discarded by the read loop) *)
 Definition late_arrival (a : answer) (t tc : N) : list N :=
-  if tc <=? t then [] else match a with Ans d _ => [t + d] | NoAns => [] end.
+  if tc <=? t then [] else match a with Ans d _ => [t + d] | _ => [] end.
 
 Record exch := mk_exch {
   e_arrivals : list N;      (* when replies of the exchange arrive *)
@@ -192,6 +204,26 @@ Definition exchange (fc : bool) (s : script) (t2 tc : N) : exch :=
   | Some (u, false) => shutdown fc s u tc [u] false false
   | None => shutdown fc s (N.max t2 tc) tc (late_arrival (s_config s) t2 tc) false false
   end.
+
+(* the requests of the exchange that are written, with the moment: a request is written iff its context
+   has not ended *)
+Definition sent_at (a : answer) (t tc : N) : list (N * answer) := if tc <=? t then [] else [(t, a)].
+Definition exchange_sent (s : script) (t2 tc : N) : list (N * answer) :=
+  sent_at (s_config s) t2 tc ++
+  match ask (s_config s) t2 tc with
+  | Some (u, true) =>
+    sent_at (s_caps s) u tc ++
+    match ask (s_caps s) u tc with
+    | Some (w, _) => sent_at (s_close s) w tc
+    | None => sent_at (s_close s) (N.max u tc) tc
+    end
+  | Some (u, false) => sent_at (s_close s) u tc
+  | None => sent_at (s_close s) (N.max t2 tc) tc
+  end.
+
+(* a trickled reply whose bytes come more often than the read deadline *)
+Definition fast_trickle (r : option N) (a : answer) : bool :=
+  match a, r with Trickle g, Some r => (0 <? g) && (g <=? r) | _, _ => false end.
 
 (* the read loop (handleIncoming): every complete message re-arms the read deadline; the loop ends by
    itself only when [r] passes without one. Arrivals: the listed ones [E] (absolute) and t0 + k*p, k >= 1. *)
@@ -263,6 +295,8 @@ Definition script_outcome (tm : timers) (s : script) : outcome :=
     let t0 := d in
     let tc := t0 + send_timeout tm in
     let hang := opt_add t0 (s_hangup s) in
+    (* idle-time deadline: Connect never leaves the read of a trickled first message ... *)
+    if idle_deadline tm && fast_trickle r (s_hello s) then mk_outcome hang None else
     match connect_phase r fc s t0 tc with
     | ConnFail t => mk_outcome (opt_min t hang) None
     | ConnReady t2 =>
@@ -270,6 +304,12 @@ Definition script_outcome (tm : timers) (s : script) : outcome :=
       let E := e_arrivals e ++ map (N.add t0) (s_chat s) in
       let rdead := reader_death E (s_period s) t0 r t2 in
       let dead := opt_min rdead hang in
+      (* ... and the read loop never leaves the read of a trickled reply of the exchange (it does not look at the
+         client being closed while inside a message), so Connect, which waits for the loop, never returns.
+         (A trickled negotiation reply does not hold Connect: negotiate() gives up on its own context.) *)
+      if idle_deadline tm &&
+         existsb (fun ta => fast_trickle r (snd ta) && negb (opt_ltb dead (fst ta))) (exchange_sent s t2 tc)
+      then mk_outcome hang None else
       match e_close e with
       | None => mk_outcome (match e_rclosed e with
                             | Some u => if opt_ltb dead u then dead else
@@ -391,6 +431,6 @@ Definition discovered (devs : list device) (rep : list (N * info)) : list (N * i
   filter (fun r => negb (name_registered devs (i_name (snd r)))) rep.
 
 (* the timers of the code as it is (timeout t, sendTimeout s) *)
-Definition go_timers (t s : N) : timers := mk_timers t None s true.
+Definition go_timers (t s : N) : timers := mk_timers t None s true false.
 (* the code since e383910: llrp.WithTimeout(timeout) — the read deadline is the probe timeout *)
-Definition go_timers_deadline (t s : N) : timers := mk_timers t (Some t) s true.
+Definition go_timers_deadline (t s : N) : timers := mk_timers t (Some t) s true false.
